@@ -8,6 +8,7 @@ output format (write_eigenvectors in QE's PHonon/PH/io_dyn_mat / matdyn.f90:
 Convention everywhere: a basis is an n x n array whose ROWS are the vectors.
 """
 import functools
+from collections import OrderedDict
 import itertools
 import math
 import re
@@ -338,7 +339,31 @@ def parse_file(text):
 LOAD_VARIANTS = ("matdyn", "shifted", "large")
 
 
-def synthetic_qpoints(nq, nmodes, variant):
+# q-point coordinates that are, or PRINT as, the origin (3f12.4), placed at chosen blocks of the file.  The
+# vectors of those blocks keep non-zero imaginary parts like everywhere else (complex combinations inside a
+# degenerate subspace at Gamma; |q_i| < 5e-5; generated files).
+Q_SPECIALS = OrderedDict((
+    ("none", None),
+    ("origin", (0.0, 0.0, 0.0)),                 # prints  0.0000  0.0000  0.0000
+    ("tiny", (1e-5, -2e-5, 4e-5)),               # prints  0.0000 -0.0000  0.0000
+    ("negzero", (-0.0, -0.0, -0.0)),             # prints -0.0000 -0.0000 -0.0000
+    ("mixedzero", (0.0, -0.0, 0.0)),
+    ("onezero", (0.0, None, None)),              # only the first coordinate is zero (None = keep the generic one)
+    ("twozero", (0.0, -0.0, None)),              # a point on an axis
+))
+Q_POSITIONS = ("first", "middle", "last", "all")
+
+
+def special_blocks(nq, qpos):
+    return {"first": [0], "middle": [nq // 2], "last": [nq - 1], "all": list(range(nq))}[qpos]
+
+
+def printed_q(q):
+    """What format_file prints for q, read back as numbers."""
+    return tuple(float("%12.4f" % x) for x in q)
+
+
+def synthetic_qpoints(nq, nmodes, variant, qspecial="none", qpos="first"):
     """A file content with a DISTINCT number in every slot (distinct in absolute value too, so that no
     confusion of slots, of re/im, of THz/cm-1 or of signs can go unnoticed).  All numbers are chosen
     on the printed grid (4 decimals for q, 6 for the rest) so that printing is lossless."""
@@ -351,6 +376,8 @@ def synthetic_qpoints(nq, nmodes, variant):
             q = (round(-0.5 + 0.0731 * iq, 4), round(0.25 - 0.1234 * (iq + 1), 4), round(-1.0 - 0.0077 * iq, 4))
         else:
             q = (round(1234.5678 - 7.0001 * iq, 4), round(-999.9999 + 3.0303 * iq, 4), round(55.0055 + 11.1 * iq, 4))
+        if Q_SPECIALS[qspecial] is not None and iq in special_blocks(nq, qpos):
+            q = tuple(g if sp is None else sp for sp, g in zip(Q_SPECIALS[qspecial], q))
         freqs = []
         for im in range(nmodes):
             fcount += 1
@@ -389,9 +416,10 @@ def synthetic_qpoints(nq, nmodes, variant):
 
 
 def all_numbers(qpoints):
+    """Every number of the content except q coordinates that print as zero (those repeat by design)."""
     out = []
     for q, modes in qpoints:
-        out.extend(q)
+        out.extend(x for x in printed_q(q) if x != 0)
         for mode_id, thz, cm1, vec in modes:
             out.extend([thz, cm1])
             for z in vec:
